@@ -33,3 +33,5 @@ def run(prog, rep):
     _rkx.run_handles_only(prog, rep)
     from ..rules import r_unit as _ru6
     _ru6.run_scale_positions(prog, rep)
+    from ..rules import r_flow as _rfa
+    _rfa.run_aligned(prog, rep)
